@@ -7,51 +7,129 @@ import (
 	"github.com/oasisprotocol/curve25519-voi/internal/verif"
 )
 
-// L2, Pippenger bucket method (portable back end, w = 6), reduced: one static and one dynamic term, the radix-2^w
-// recodings replaced by digit vectors that are ARBITRARY (in [-32, 32]) in two adjacent case-split columns (c0, c0+1 mod 43) and zero
-// elsewhere. The whole routine runs over the Z-module ghost: bucket selection by digit, bucket weights, column
-// combination by 2^w, and - above all - that scalar i is applied to point i across the static/dynamic split.
-// Outside: more than 2 terms, w = 7 / 8 (more than 500 terms), digits in more than two columns at once.
+// L2, Pippenger bucket method (portable back end), reduced: one static and one dynamic ACTIVE term, padded with
+// zero-digit terms up to the term count that selects the window width (w = 6: 2 terms, w = 7: 500, w = 8: 800).
+// The radix-2^w recodings are replaced by digit vectors that are ARBITRARY (in [-2^(w-1), 2^(w-1)]) in two
+// adjacent case-split columns and zero elsewhere; the columns include the LAST one of ToRadix2wSizeHint(w), which for
+// w = 8 holds only the terminal carry. The whole routine runs over the Z-module ghost: bucket selection by digit,
+// bucket weights, column combination by 2^w, the number of columns, and that scalar i is applied to point i across
+// the static/dynamic split.
+// Outside: more than 2 active terms, digits in more than two columns at once.
 
 var r2wDigits [][43]int8
 
+func pipCount(w int) int {
+	switch w {
+	case 6:
+		return 43
+	case 7:
+		return 37
+	}
+	return 33
+}
+
+func pipSize(w int) int {
+	switch w {
+	case 6:
+		return 2
+	case 7:
+		return 500
+	}
+	return 800
+}
+
+// window width of the run: case-split (6, 7) or 8 for the obligation with concrete digit values
+func pipW() int {
+	if verif.HasCase("w") {
+		return verif.Case("w")
+	}
+	return 8
+}
+
+var pipDigits8a = [6]int8{-128, -1, 1, 2, 127, 0}
+var pipDigits8b = [6]int8{1, 0, 127, -128, -1, 2}
+
+func pipCols() (int, int) {
+	cnt := pipCount(pipW())
+	c0 := verif.Case("c0")
+	if verif.HasCase("cx") { // thorough tier: every column
+		c0 = verif.Case("cx")
+		if c0 >= cnt {
+			verif.SkipRun()
+			return 0, 1
+		}
+		return c0, (c0 + 1) % cnt
+	}
+	c := []int{0, 1, cnt - 2, cnt - 1}[c0]
+	return c, (c + 1) % cnt
+}
+
 //verif:contract for=(*curve/scalar.Scalar).ToRadix2w group=r2wabs
 func ra_ToRadix2w(s *scalar.Scalar, w uint) [43]int8 {
-	verif.Requires(w == 6, "w = 6 for fewer than 500 terms")
+	verif.Requires(int(w) == pipW(), "window width follows the term count (6 below 500 terms, 7 below 800, else 8)")
 	var d [43]int8
 	n := len(r2wDigits)
-	for _, c := range []int{verif.Case("c0"), (verif.Case("c0") + 1) % 43} {
-		x := verif.AnyI8("r2w" + string(rune('0'+n)) + "_" + nafItoa(c))
-		verif.Assume(x >= -32 && x <= 32)
-		d[c] = x
+	if n < 2 {
+		ca, cb := pipCols()
+		half := int8(1) << (w - 2) // (2^(w-1) does not fit int8 for w = 8)
+		for j, c := range []int{ca, cb} {
+			if w == 8 {
+				// 128 buckets under a symbolic index do not finish: the digit VALUES are case-split for w = 8
+				// (boundary values of [-128, 128)); the last column holds the terminal carry only (0 or 1)
+				dv := verif.Case("dv")
+				x := pipDigits8a[(dv+n)%6]
+				if j == 1 {
+					x = pipDigits8b[(dv+n)%6]
+				}
+				if c == 32 {
+					x = int8((dv + n + 1) & 1)
+				}
+				d[c] = x
+				continue
+			}
+			x := verif.AnyI8("r2w" + string(rune('0'+n)) + "_" + nafItoa(c))
+			verif.Assume(x >= -2*half && x <= 2*half)
+			d[c] = x
+		}
 	}
 	r2wDigits = append(r2wDigits, d)
 	return d
 }
 
-func r2wSum(d *[43]int8) verif.Int {
+func r2wSum(d *[43]int8, w int) verif.Int {
 	acc := verif.IntK(0)
 	for j := 42; j >= 0; j-- {
-		acc = acc.Shl(6).Add(verif.IntOfI8(d[j]))
+		acc = acc.Shl(w).Add(verif.IntOfI8(d[j]))
 	}
 	return acc
 }
 
-//verif:ob prop=C03,C09 name=L2_pippengerGeneric_static_dynamic mode=bv tags=purego use=pt,r2wabs native=1 split=c0:0+1+41..42 tsplit=c0:0..42 timeout=300
+//verif:ob prop=C03,C09,C06 name=L2_pippengerGeneric_w8_terminal_carry_column mode=bv tags=purego use=pt,r2wabs native=1 split=c0:0..3;dv:0..5 timeout=300
+func vh_L2_pippenger_w8() { vh_L2_pippenger() }
+
+//verif:ob prop=C03,C09,C06 name=L2_pippengerGeneric_static_dynamic mode=bv tags=purego use=pt,r2wabs native=1 split=w:6..7;c0:0..3 tsplit=w:6..7;cx:0..42 timeout=300
 func vh_L2_pippenger() {
 	if verif.Native() {
 		pippengerEndToEnd()
 		return
 	}
 	r2wDigits = nil
-	P0, P1 := genPoint("P0", 0), genPoint("P1", 1)
-	var s0, s1 scalar.Scalar
+	w := pipW()
+	size := pipSize(w)
+	P0, P1, P2 := genPoint("P0", 0), genPoint("P1", 1), genPoint("P2", 2)
+	var s0, s1, sz scalar.Scalar
+	ds := make([]*scalar.Scalar, size-1)
+	dp := make([]*EdwardsPoint, size-1)
+	ds[0], dp[0] = &s1, P1
+	for i := 1; i < size-1; i++ {
+		ds[i], dp[i] = &sz, P2
+	}
 	var out EdwardsPoint
-	edwardsMultiscalarMulPippengerVartimeGeneric(&out, []*scalar.Scalar{&s0}, []*EdwardsPoint{P0}, []*scalar.Scalar{&s1}, []*EdwardsPoint{P1})
+	edwardsMultiscalarMulPippengerVartimeGeneric(&out, []*scalar.Scalar{&s0}, []*EdwardsPoint{P0}, ds, dp)
 	k := getK(&out)
-	verif.Assert(len(r2wDigits) == 2, "two recodings")
+	verif.Assert(len(r2wDigits) == size, "one recoding per term")
 	// the recodings are requested static first, then dynamic
-	verif.Assert(k[0].Eq(r2wSum(&r2wDigits[0])) && k[1].Eq(r2wSum(&r2wDigits[1])) && k[2].Eq(verif.IntK(0)), "result = s_static*P_static + s_dynamic*P_dynamic")
+	verif.Assert(k[0].Eq(r2wSum(&r2wDigits[0], w)) && k[1].Eq(r2wSum(&r2wDigits[1], w)) && k[2].Eq(verif.IntK(0)), "result = s_static*P_static + s_dynamic*P_dynamic")
 }
 
 func pippengerEndToEnd() {
